@@ -30,14 +30,14 @@ TOL = 1e-9
 WSET = (1, 2, 3, 5, 17, 1000)
 WMILD = (1, 2, 3, 5, 17)     # free weights for glynn blocks > GLYNN_WIDE_MAX (see the assumption on conditioning)
 GLYNN_WIDE_MAX = 5           # largest non-row-constant block that gets weights with dynamic range 1000
-REPORT_ILL_CONDITIONED = False   # report the Glynn-cancellation witness below as a property failure
+REPORT_ILL_CONDITIONED = True    # report the Glynn-cancellation witness below as a property failure
 ILL_CONDITIONED = {"kind": "ill-conditioned", "off": 1,
                    "W": [[1] + [0] * 10] + [[0] + [1] * 9 + [0]] + [[0, 1000] + [1] * 8 + [0] for _ in range(8)] + [[0] * 11],
                    "locks": [0] * 10 + [1]}
-SPEC_ALL = 5          # idle blocks up to this size always go through the Lean `spec` op (brute force n!)
+SPEC_ALL = 4          # idle blocks up to this size always go through the Lean `spec` op (brute force n!)
 PERM_MAX = 8          # up to this size the Lean permC of the idle block and of one minor is compared as well
-SPEC_CAP_QUICK = {6: 40, 7: 6, ("perm", 8): 40}
-SPEC_CAP_THOROUGH = {6: 600, 7: 60, ("perm", 8): 400}
+SPEC_CAP_QUICK = {5: 400, 6: 40, 7: 6, ("perm", 8): 40}
+SPEC_CAP_THOROUGH = {5: 6000, 6: 600, 7: 60, ("perm", 8): 400}
 STATS = {"max_abs_err_vs_spec": 0.0, "max_abs_err_vs_model": 0.0, "max_rescale_diff": 0.0}
 
 W_MATRIX1 = [
@@ -813,6 +813,25 @@ def sub_functions(ctx, code, rng):
                         ctx.fail("C02:paths-disagree:quick-vs-permanent", "quick_prob and permanent_prob differ on a row-constant block", rep)
 
 
+def tie_sensitive(off, W, locks):
+    """two idle rows of the same part (minus / plus) have the same argsort key but differ: the code's result
+    may then depend on numpy's (unspecified, here unstable) tie order, the model sorts stably"""
+    idle = [i for i in range(len(W)) if not locks[i]]
+    offset = off - sum(locks[:off])
+    seen = {}
+    for a, i in enumerate(idle):
+        row = tuple(W[i][j] for j in idle)
+        pos = [x > 0 for x in row]
+        if a < offset:
+            key = ("m", pos.index(True) if True in pos else 0)
+        else:
+            rp = pos[::-1]
+            key = ("p", rp.index(True) if True in rp else 0)
+        if seen.setdefault(key, row) != row:
+            return True
+    return False
+
+
 def malformed(ctx, code, rng):
     """(d) out-of-family matrices: only ok / error kind compared with the model (no property claim)"""
     cases = []
@@ -873,6 +892,10 @@ def malformed(ctx, code, rng):
         mkind = mt[0] if mt[0] in ("ok", "mc") else body.strip()
         ctx.count(1, branch="malformed:" + mkind)
         rep = {"kind": "malformed", "off": c["off"], "W": c["W"], "locks": c["locks"]}
+        if tie_sensitive(c["off"], c["W"], c["locks"]):
+            ctx.hit("malformed:argsort-tie-between-different-rows-not-compared")
+            continue
+        ctx.hit("malformed:compared")
         if mkind != kind:
             if kind == "ok" and mkind == "err:assert":
                 # np.allclose (rtol 1e-5) in the code vs exact sums in the model: only a disagreement if the
@@ -933,7 +956,7 @@ def run(ctx):
         t2 = ctx.elapsed()
         sub_functions(ctx, code, rng)
         ill = predicate(code, ILL_CONDITIONED, full=False)
-        ctx.extra["ill_conditioned_witness"] = {"fails_now": [f[0] for f in ill], "reported": REPORT_ILL_CONDITIONED}
+        ctx.extra["ill_conditioned_witness"] = {"fails_now": [list(f) for f in ill], "reported": REPORT_ILL_CONDITIONED}
         if ill and REPORT_ILL_CONDITIONED:
             ctx.fail("C02:glynn-cancellation-ill-conditioned",
                      "rounding in fast_glynn_perm: " + ill[0][1], {k: v for k, v in ILL_CONDITIONED.items()})
@@ -954,6 +977,10 @@ def run(ctx):
         "unstable even for n<=16); the model sorts stably; in-family results are tie-order independent; generators cover ties",
         "longdouble rounding not modelled; tolerance 1e-9",
         "Monte-Carlo branch (non-row-constant blocks > 12) outside exactness: only the branch decision is checked",
+        "exactness theorems are over Rat; float cancellation inside fast_glynn_perm/permanent_prob (longdouble) is "
+        "outside the model; one fixed ill-conditioned witness is evaluated each run as known finding",
+        "malformed (out-of-family) inputs are compared model-vs-code only when no two different idle rows share an "
+        "argsort key (otherwise the code's outcome depends on numpy's tie order)",
         "np.allclose(…, 1) (rtol 1e-5) is modelled as exact equality with 1; on malformed inputs an ok/err:assert "
         "difference is only reported when the code's matrix is doubly stochastic to 1e-12",
         "weights are integers (exact in float64 and as Lean rationals); conditioning: non-row-constant (glynn) blocks "
